@@ -32,6 +32,20 @@ CHECKS["C01"] = {
     "level_text": "every case of the stated finite lattice (orders x DIM x N x all duration words x start times x complete data basis x 4 construction routes) is executed on the real classes and checked; by linearity in the data the basis covers all waypoint/boundary values for those durations",
 }
 
+TECH_E1 = "bounded exhaustive enumeration of the input/configuration lattice executed on the real code (explicit-state, no sampling)"
+
+CHECKS["C02"] = {
+    "engine": "E1 lattice explorer",
+    "jobs": lambda tier: per_dim("C02.cpp", "C02", tier),
+    "rule": "unit = (order, duration alphabet, N, duration word, scale); every unit compares the published coefficients for the full data basis + generic data with the dense long-double solve R1 and checks continuity of derivatives 0..2s-2 at every interior knot; for N<=3 (quick) / N<=4 (thorough), DIM<=2 the oracle R1 is itself cross-checked against the KKT minimiser R1'; non-trivial = N >= 2",
+    "bounds": {"quick": "3 orders x DIM 1..4 x N 1..5 x all 3^N duration words x full data basis",
+               "thorough": "3 orders x DIM 1..10 x (N 1..8 all 3^N words; N 9,10 all 2^N words) x 3 scales + jittered alphabet N<=6, full data basis"},
+    "thresholds": {"coef vs R1, scaled by the solution magnitude (cubic/quintic/septic)": [3e-9, 1e-8, 1e-6], "continuity": [1e-9, 3e-7, 1e-5], "R1' vs R1": 1e-9},
+    "assumptions": ASSUME_COMMON + ["'minimises among all sufficiently smooth curves' is decided through the observable clause (C^{2s-2} continuity + agreement with the unique minimiser) and the finite-dimensional variational cross-check R1'"],
+    "technique": TECH_E1 + "; oracle = independent dense long-double solve of the optimality conditions, itself validated against a KKT solve of the optimisation problem",
+    "level_text": "every case of the finite lattice is executed and compared coefficient by coefficient with an independent reference; by linearity in the data the basis covers all data for those durations; structure classes N=1/2/3/>=4 all enumerated",
+}
+
 NOT_APPLICABLE = {}
 
 ENGINES = [
